@@ -31,7 +31,7 @@ LEVEL_TEXT = (
     "assembly (_subproc_cliargs, atom actions translated from the parser source, list_of_strs_or_callables, outer product, "
     "resolve_args_list, _fix_null_cmd_bytes) is proved: raw literal = one verbatim argument, non-raw = one argument = documented "
     "expansion, @() injection verbatim / one per element / in place for ALL values, word count and order, alias argv = Popen argv "
-    "without NUL. PARTIAL + counterexample (open finding): `a@(x)b` (globbed / expanded). Macro text (cut at U+000B/000C/001C-1E/0085/"
+    "without NUL; @$() re-splits the output LINE BY LINE (C04_captured_inject_per_line, over an abstract per-line splitter). PARTIAL + counterexample (open finding): `a@(x)b` (globbed / expanded). Macro text (cut at U+000B/000C/001C-1E/0085/"
     "2028/2029; parser crash after an extend atom) and raw f-strings (expanded: the PEP 701 rule dropped is_raw) are dual-variant: "
     "three facts translated from the parser source select the variant; the defective one has partial theorems + counterexamples, the "
     "full statements (C04_macro_raw, C04_raw_fstring_partial) hold for the repaired one, which is what /repo has since 7777fd2 / bba679b / 6f83989 (a regression "
@@ -43,7 +43,7 @@ LEVEL_NOTE = (
     "value`, `re`'s \\w classification, str(), os.fsdecode, os.path.expanduser's pwd lookups). Searched, not proved: the lexer's word "
     "splitting and the execer's bare-line -> ![...] rewriting (six open bare-line findings live there, each with a mechanism-specific "
     "classifier confirmed by re-running the command with the trigger removed; failures are attributed to OPEN findings only, so the "
-    "seven repaired ones are must-pass), Lexer.split for @$() and $() as an argument (tied-only stream), the OS "
+    "seven repaired ones are must-pass), Lexer.split itself (abstract per-line splitter in the @$() model: the per-line contract capturedInject / C04_captured_inject_per_line IS modelled and compared, what the lexer answers for one line is only checked against the tokens of the output; three open findings there) and $() as an argument, the OS "
     "leg (Popen/execve/argv decoding: real-child stream). Not covered: p\"\" / b\"\" literals, ${...} and $[...] inside arguments, redirect "
     "tuples in resolve_args_list, lines that are also valid Python (their Python / subprocess decision is C02 / C03: written as ![...] here)."
 )
